@@ -1,6 +1,7 @@
 """Engine M checks for NUTS: C04 (dual averaging), C03 (Algorithm 6), C14 (NUTS part), C09 (NUTS runs)."""
 import random
 import re
+import math
 from fractions import Fraction
 
 import numpy as np
@@ -449,6 +450,86 @@ def RP_TREE(model):
 def RP_ADAPT(model):
     import m_replay
     return m_replay.replay_nuts("adapt")
+
+
+def replay_long_trajectory(model=None):
+    """transitions that need more than ten doublings (wide Gaussian, unit step size) against the reference Algorithm 6"""
+    wide = {"kind": "gauss", "mean": [0.0, 0.0], "cov": [2.25e6, 0.0, 0.0, 2.25e6]}
+    cases = [{"case": "nuts_step", "target": wide, "position": [100.0, -50.0], "seed": 5 + k, "delta": 0.8,
+              "adapt": [1.0, 1.0, 0.0, math.log(10.0)], "m": 5, "n_discard": 2, "steps": 2} for k in range(2)]
+    import m_replay
+    nat = m_replay.run_batch(cases)
+    hits = []
+    for prof, outs in nat.items():
+        if not isinstance(outs, list):
+            continue
+        for case, o in zip(cases, outs):
+            if not isinstance(o, dict):
+                continue
+            if o.get("panic"):
+                hits.append((prof, case, o))
+                continue
+            for st in o.get("steps", []):
+                if not m_replay.vec_close(st["real_position"], st["reference_position"], 1e-6):
+                    hits.append((prof, case, st))
+                    break
+    if hits:
+        return True, {"case": hits[0][1], "native": hits[0][2], "what": "a long transition differs from Algorithm 6",
+                      "reproduced_in": sorted(set(h[0] for h in hits))}
+    return False, {"n_cases": len(cases), "native": {k: (v if not isinstance(v, list) else "ok") for k, v in nat.items()}}
+
+
+def c03_loop_condition(out, tier, seed):
+    """The doubling loop of NUTSChain::step from an ARBITRARY iteration count: entered at the loop head with s = true and the
+    depth counter j a symbolic integer, the body (the next build_tree call) must be reached; with s = false the loop must end.
+    (The step-level unit explores only the first doublings with concrete j.)"""
+    eng = mir_load.load_engine()
+    u = MUnit(out, "C03", "c03_loop_condition", eng, functions=["NUTSChain::step (doubling loop head, mid-function entry)"],
+              bounds=["depth counter j symbolic in [0, 2^40); s in {true, false}; dimension 1"],
+              assumptions=R_ASSUME, out_of_scope=["termination of the doubling loop itself (the crate has no depth limit by design)"])
+    mirsym.MUL_MODE["mode"] = "uf"
+    try:
+        T = UFTarget(1, nan_mode=False)
+        T.install(eng)
+        step_name = eng.find_fn("NUTSChain::step")
+        fn = eng.dump.get(step_name)
+        head = find_loop_head(fn, "s")
+        loc = {k: dbg_local(fn, k) for k in ("s", "j")}
+        body = {i for i, b in fn.blocks.items() if not b.cleanup and b.term is not None and b.term.kind == "call"
+                and "build_tree" in b.term.a["callee"]}
+        for s_val in (True, False):
+            def run(ctx, s_val=s_val):
+                pos = [ctx.fresh_real("q")]
+                me = nuts_chain_struct(eng, target=Opaque("target"), position=tensor(pos), target_accept_p=Num(Fraction(4, 5)),
+                                       epsilon=Num(1), m=3, n_collect=5, n_discard=10, gamma=Num(GAMMA), t_0=T0, kappa=Num(KAPPA),
+                                       mu=Num(0), epsilon_bar=Num(1), h_bar=Num(0),
+                                       rng=Struct("SmallRng", ["seed"], [Opaque("state")]))
+                frame = mirsym.Frame(fn, [Ref.to(me)])
+                eng.functions_entered.add(step_name)
+                eng.run_frame(frame, 0, stop_at={head})
+                j = ctx.fresh_int("j")
+                ctx.assume(z3.And(j >= 0, j < 2 ** 40))
+                frame.locals[loc["j"]] = j
+                frame.locals[loc["s"]] = s_val
+                r = eng.run_frame(frame, head, stop_at=body, skip_first=True)
+                return isinstance(r, tuple) and len(r) == 3 and r[0] == "stopped", j
+            n = 0
+            for ctx, res in eng.explore(run, max_paths=50):
+                u.paths += 1
+                if isinstance(res, Exception):
+                    out.inconclusive.append("c03_loop_condition: %r" % (res,))
+                    continue
+                n += 1
+                entered, j = res
+                if s_val:
+                    u.holds(ctx, "while no U-turn or divergence has occurred (s true) the trajectory is doubled again, whatever the "
+                            "number of doublings made so far", entered, replay_long_trajectory, "s = true")
+                else:
+                    u.holds(ctx, "once s is false no further doubling is made", not entered, RP_TREE, "s = false")
+            u.reached("loop head with s = %s" % s_val, n)
+    finally:
+        mirsym.MUL_MODE["mode"] = "exact"
+    u.done()
 
 
 def c03_build_tree(out, tier, seed):
